@@ -208,6 +208,16 @@ func SeedHeader(number uint64, seed common.Hash, valRoot common.Hash, version pa
 		GasRewards: new(big.Int), Subsidy: new(big.Int), CurrVersion: version, Time: 1600000000 + number}
 }
 
+// SeedHeaderCert is SeedHeader carrying the thresholds its (past) proposer declared.
+func SeedHeaderCert(number uint64, seed common.Hash, valRoot common.Hash, version params.YouVersion, propTh, valTh, certTh uint64) *types.Header {
+	h := SeedHeader(number, seed, valRoot, version)
+	cd := &ucon.BlockConsensusData{Round: new(big.Int).SetUint64(number), RoundIndex: 1, Seed: seed, Priority: common.Hash{}, SortitionProof: []byte{}, Signature: []byte{},
+		ProposerThreshold: propTh, ValidatorThreshold: valTh, CertValThreshold: certTh}
+	b, _ := ucon.PrepareConsensusData(nil, cd)
+	h.Consensus = b
+	return h
+}
+
 // HeaderTemplate is an unsigned child of parent.
 func HeaderTemplate(parent *types.Header, r *rand.Rand) *types.Header {
 	h := &types.Header{
